@@ -32,7 +32,8 @@ class FakeWriter:
     async def drain(self):
         w = self.sess.world
         if self.drain_mode > 1:
-            c = w.sched.choose("drain", self.drain_mode, (self.sess.name,))
+            # 9: park unconditionally (a scenario's set-up puts a reader into the middle of its command)
+            c = 1 if self.drain_mode == 9 else w.sched.choose("drain", self.drain_mode, (self.sess.name,))
             if c == 1:
                 # the peer reads slowly: the writing task is parked until the harness' "peer caught up"
                 # event (VLoop.parked_drains) is taken
